@@ -550,7 +550,7 @@ func mkTagFilter(r *rand.Rand, ls labelSpec) tagFilter {
 			return true
 		}}
 	case 1: // key=regexps, comma = OR
-		key := []string{"k1", "k2", "nokey"}[r.Intn(3)]
+		key := []string{"k1", "k2", "nokey", "http.method", "a+b"}[r.Intn(5)]
 		parts := []string{[]string{"aa", "^a", "b", "(?i)aa", "(?i)^b$", "(?i:a)a"}[r.Intn(6)]}
 		if r.Intn(2) == 0 {
 			parts = append(parts, []string{"ab", "ab", "^b"}[r.Intn(3)])
@@ -672,7 +672,7 @@ func runTags(c *harness.Ctx) harness.Result {
 	p := genProfile(r)
 	ls := labelSpec{sizeUnit: []string{"bytes", "kb"}[r.Intn(2)], durUnit: []string{"ms", "us", "ns"}[r.Intn(3)]}
 	for _, s := range p.Sample {
-		for _, k := range []string{"k1", "k2"} {
+		for _, k := range []string{"k1", "k2", "http.method", "a+b"} {
 			if r.Intn(3) == 0 {
 				for j, n := 0, 1+r.Intn(2); j < n; j++ {
 					s.Label[k] = append(s.Label[k], []string{"aa", "ab", "b", "AB", "B"}[r.Intn(5)])
